@@ -2836,9 +2836,11 @@ class _Simu(_IObserver, _params.Updatable, ABC):
                     eval_n = np.zeros(Nn, dtype=float)
                     eval_n[nodes] = values[u]
                     eval_e = eval_n[connect]  # (Ne, nPe)
+                    # interpolate the nodal values on gauss points (Ne, nPg)
+                    eval_e_p = np.einsum("en,pin->ep", eval_e, N_pg, optimize="optimal")
                     # integrate the elements (Ne, nPg, nPe)
                     values_e_p = np.einsum(
-                        "ep,en,pin->epn", wJ_e_pg, eval_e, N_pg, optimize="optimal"
+                        "ep,ep,pin->epn", wJ_e_pg, eval_e_p, N_pg, optimize="optimal"
                     )
 
                 # set calculated (sum on integration points) values and dofs
@@ -3017,6 +3019,10 @@ class _Simu(_IObserver, _params.Updatable, ABC):
         tic = Tic()
 
         self._Check_dofs(problemType, unknowns)
+
+        if np.size(dofs) == 0:
+            # the selected nodes do not bound any element: nothing to add
+            return
 
         new_Bc = BoundaryCondition(
             problemType, nodes, dofs, unknowns, dofsValues, f"Neumann {description}"
